@@ -223,6 +223,19 @@ def compute():
                 and isinstance(x.value.test, ast.Attribute) and x.value.test.attr == "ascii_only"):
             markers.append((x.targets[0].id, x.value.orelse.value, x.value.body.value))
     facts["markers"] = sorted(markers)
+    # per-property fact modules: harness/facts_*.py, each with compute() -> {name: bool|int}
+    import glob
+    import importlib
+    here = os.path.dirname(os.path.abspath(__file__))
+    for path in sorted(glob.glob(os.path.join(here, "facts_*.py"))):
+        mod = importlib.import_module("harness." + os.path.basename(path)[:-3])
+        try:
+            extra = mod.compute()
+        except Exception as ex:  # fail closed: the facts of that module are simply absent
+            extra = {}
+        for k, v in extra.items():
+            assert k not in facts, k
+            facts[k] = v
     return facts
 
 
